@@ -232,6 +232,58 @@ func primitiveCheck() *venum.Check {
 	}}
 }
 
+// the length-prefixed byte / short-string primitives at the boundaries of their 1-, 2- and 4-byte prefixes: a value is either
+// rejected by the writer or comes back exactly, followed by an intact sentinel, with every byte consumed
+func lengthPrefixCheck() *venum.Check {
+	return &venum.Check{Name: "primitives/length-prefix-boundaries", Family: "primitives", Run: func(c *venum.Ctx) {
+		for _, ls := range []int{messages.LengthSize1, messages.LengthSize2, messages.LengthSize4} {
+			for _, n := range []int{0, 1, 2, 254, 255, 256, 257, 65534, 65535, 65536, 65537} {
+				in := map[string]any{"length_size": ls, "payload_bytes": n}
+				c.Case(fmt.Sprintf("bytes|%d|%d", ls, n), true)
+				safely(c, "primitive-no-panic", in, func() {
+					payload := bytes.Repeat([]byte{0xab}, n)
+					w := messages.NewWriter()
+					w.WriteBytesWithLength(payload, ls).WriteUint32(0xfeedbeef)
+					if w.Err() != nil {
+						return // rejected: nothing was promised
+					}
+					r := messages.NewReader(w.Bytes())
+					back, err := r.ReadBytesWithLength(ls)
+					if err != nil || !bytes.Equal(back, payload) {
+						c.Fail("primitive-roundtrip", in, "WriteBytesWithLength accepted %d bytes with a %d-byte prefix but they read back as %d bytes (err %v)", n, ls, len(back), err)
+						return
+					}
+					if v, err := r.ReadUint32(); err != nil || v != 0xfeedbeef || r.Pos() != len(w.Bytes()) {
+						c.Fail("reader-consumes-exactly", in, "the value written after a %d-byte payload (prefix %d) read back as %x (err %v), reader at %d of %d", n, ls, v, err, r.Pos(), len(w.Bytes()))
+					}
+				})
+			}
+		}
+		for _, n := range []int{0, 1, 254, 255, 256, 257, 300} {
+			in := map[string]any{"short_string_bytes": n}
+			c.Case(fmt.Sprintf("shortstring|%d", n), true)
+			safely(c, "primitive-no-panic", in, func() {
+				str := strings.Repeat("s", n)
+				w := messages.NewWriter()
+				w.WriteShortString(str).WriteUint32(0xfeedbeef)
+				if w.Err() != nil {
+					return
+				}
+				r := messages.NewReader(w.Bytes())
+				back, err := r.ReadShortString()
+				if err != nil || back != str {
+					c.Fail("primitive-roundtrip", in, "WriteShortString accepted %d bytes but they read back as %d bytes (err %v)", n, len(back), err)
+					return
+				}
+				if v, err := r.ReadUint32(); err != nil || v != 0xfeedbeef || r.Pos() != len(w.Bytes()) {
+					c.Fail("reader-consumes-exactly", in, "the value written after a %d-byte short string read back as %x (err %v)", n, v, err)
+				}
+			})
+		}
+		c.Sample(map[string]any{"length_size": 1, "payload_bytes": 256})
+	}}
+}
+
 // sequences of encodes / decodes: results must not alias shared (pooled) state
 func sequenceCheck() *venum.Check {
 	return &venum.Check{Name: "sequences/encode-encode-decode+decode-after-failure", Family: "sequences", Run: func(c *venum.Ctx) {
@@ -344,7 +396,7 @@ func build(tier string) []*venum.Check {
 	for _, n := range names {
 		out = append(out, typeCheck(n))
 	}
-	out = append(out, primitiveCheck(), sequenceCheck())
+	out = append(out, primitiveCheck(), lengthPrefixCheck(), sequenceCheck())
 	_ = vivid.ErrorNotFound
 	return out
 }
